@@ -19,7 +19,7 @@ TECHNIQUE = ("exhaustive enumeration of page-size sequences x access patterns pl
 RULE = ("A case is a result of 1-6 pages with 0-4 rows each (empty first/middle/last pages included), globally unique row "
         "values and a unique opaque paging state per page; the fake nodes decode the paging state of every request.  Access "
         "patterns: for-loop, list(), all(), manual fetch_next_page + current_rows, callbacks + start_fetching_next_page, "
-        "one(), index / equality (list mode), partial iteration, next() k times then a for-loop over the same object.  "
+        "one(), index / equality (list mode), partial iteration.  "
         "Generated extras: a page whose first attempt fails and is retried, a page whose first attempt is answered only "
         "after a speculative attempt completed the page and the next page was requested, tuple/dict/named row factories.  "
         "Oracle: rows seen == concatenation of the pages consumed, every request for page k carries exactly the state "
@@ -30,8 +30,8 @@ ASSUMPTIONS = ["network, clock, executor and event loop are simulated (sim/); Cl
                "ResponseFuture and ResultSet are the real classes",
                "paging states are non-empty opaque byte strings, as Cassandra produces them"]
 
-PATTERNS = ["iterate", "list", "all", "manual", "callbacks", "one", "index", "eq", "partial", "next_then_for"]
-FULL = {"iterate", "list", "all", "manual", "callbacks", "index", "eq", "next_then_for"}
+PATTERNS = ["iterate", "list", "all", "manual", "callbacks", "one", "index", "eq", "partial"]
+FULL = {"iterate", "list", "all", "manual", "callbacks", "index", "eq"}
 
 
 def interpret(case, ctx):
@@ -96,6 +96,8 @@ def _run(case, ctx, sim):
             reqs.append(("unknown", ps))
             return ("error", "invalid", {})
         reqs.append(i)
+        if len(reqs) > 4 * P + 12:
+            return ("drop",)        # runaway: stop answering, the client side then reports it
         k = attempts.get(i, 0)
         attempts[i] = k + 1
         # a parked answer of an earlier page is released once a later page has been asked for
@@ -130,9 +132,13 @@ def _run(case, ctx, sim):
             seen.extend(_norm(r) for r in rs.all())
         elif pattern == "manual":
             seen.extend(_norm(r) for r in rs.current_rows)
-            while rs.has_more_pages:
+            for _ in range(4 * P + 13):
+                if not rs.has_more_pages:
+                    break
                 rs.fetch_next_page()
                 seen.extend(_norm(r) for r in rs.current_rows)
+            else:
+                raise RuntimeError("runaway: has_more_pages stays true after %d manual fetches" % (4 * P + 13))
         elif pattern == "one":
             info["one"] = rs.one()
         elif pattern == "index":
@@ -154,16 +160,6 @@ def _run(case, ctx, sim):
                 except StopIteration:
                     info["stopped"] = True
                     break
-        elif pattern == "next_then_for":
-            it = iter(rs)
-            for _ in range(k):
-                try:
-                    seen.append(_norm(next(it)))
-                except StopIteration:
-                    info["stopped"] = True
-                    break
-            for r in it:
-                seen.append(_norm(r))
         else:
             raise ValueError(pattern)
 
@@ -324,7 +320,7 @@ def _cases(chunk):
         seqs = [s for s in seqs if s[0] == chunk["first"]]
     for seq in seqs:
         ks = [1]
-        if p in ("partial", "next_then_for", "index"):
+        if p in ("partial", "index"):
             total = sum(seq)
             ks = sorted(set([1, max(1, total - 1), total + 1]))
         for k in ks:
